@@ -148,6 +148,16 @@ def check_layout(case, stats):
                 want = [{"parseError": {"source": {"uri": path, "location": ({"line": l, "column": c} if c is not None else {"line": l})}, "message": m}} for l, c, m in base["errors"]]
             if out != want:
                 raise Violation(case, "T2 loading through source_event + GherkinEvents differs from parsing the string, %s" % diff_text(out, want, "stream", "string"))
+        # the same file below a deep directory: a path longer than any single-name limit (but well below PATH_MAX)
+        deep = os.path.join(*(["d" * 60] * 6))
+        os.makedirs(deep, exist_ok=True)
+        lp = os.path.join(deep, "f" * 40 + ".feature")
+        with open(lp, "w", encoding="utf8", newline="") as f:
+            f.write(text)
+        try:
+            same(case, "T2 loading the document from a file with a %d-character path" % len(lp), base, outcome(None, dflt, scanner=gh.TokenScanner(lp)))
+        finally:
+            os.unlink(lp)
     finally:
         os.unlink(path)
     # T3 trailing blanks
